@@ -914,9 +914,14 @@ def graph_edit_history(rng, kind="graph-edit-history"):
             lst = rx[i][2] if sd == "l" else rx[i][3]
             if lst:
                 j = rng.randrange(len(lst))
-                c = rng.choice([x for x in (1, 2, 3, 4, 12) if x != lst[j][1]])
-                op = ["coef", rx[i][0], sd, lst[j][0], c]
-                lst[j][1] = c
+                if rng.random() < 0.25 and len(rx[i][2]) + len(rx[i][3]) > 1:
+                    # the coefficient attribute set to 0 (falsy): the arc stays in the graph and contributes nothing
+                    op = ["coef", rx[i][0], sd, lst[j][0], 0]
+                    lst.pop(j)
+                else:
+                    c = rng.choice([x for x in (1, 2, 3, 4, 12) if x != lst[j][1]])
+                    op = ["coef", rx[i][0], sd, lst[j][0], c]
+                    lst[j][1] = c
         elif z < 0.7:
             i = rng.randrange(len(rx))
             pool = species() + ["Q9"]
